@@ -579,7 +579,6 @@ func (pc *PeerConnection) SetConfiguration(configuration Configuration) error { 
 				return &rtcerr.InvalidModificationError{Err: ErrModifyingCertificates}
 			}
 		}
-		pc.configuration.Certificates = configuration.Certificates
 	}
 
 	// https://www.w3.org/TR/webrtc/#set-the-configuration (step #3.4)
